@@ -272,6 +272,14 @@ example : forget (Gen.CodeImp.remapPinGrid.run [123456789] []) = some [9, 0, 7, 
 example : forget (Gen.CodeImp.pinToBytes.run [12345678901] [List.replicate 10 0]) = none
     ∧ forget (pinToBytes 12345678901) = none := by decide
 
+
+/-- the parameter and return types of the two functions are the ones the hypotheses above spell out (`pin < 2^32`, a 10-byte array):
+    nothing of a signature reaches the translated term, so it is a fact of its own -/
+theorem C16_translated_signatures :
+    Gen.CodeImp.signaturesPin = ["pin_to_bytes: (u32, &mut[u8;10]) -> &mut[u8]", "remap_pin_grid: (u32) -> [u8;10]"] := by decide +kernel
+
+#print axioms C16_translated_signatures
+
 end WowSrp
 
 #print axioms WowSrp.C16_translated_pin_to_bytes
